@@ -267,6 +267,29 @@ def run(case):
         if np.abs(K1 - K0).max() > 0 or np.abs(K1 - np.eye(len(pts0))).max() > max(1e-9, TOLc):
             bad("siblings/nodal-basis", "shape functions at the element's own points after sibling objects (element, mesh, quadrature of the same order) were modified in place by their owners", float(max(np.abs(K1 - K0).max(), np.abs(K1 - np.eye(len(pts0))).max())), "identity, unchanged")
 
+    # (0c) the same point handed over in another container / number type (list of Python ints, tuple, integer array, float32
+    # array, list of floats): points with integer coordinates inside the closed cell -- function, gradient and hessian are
+    # those of the float64 array
+    ipts = [p_ for p_ in itertools.product(*[sorted({int(np.ceil(lo)), 0 if lo <= 0 <= hi else int(np.ceil(lo)), int(np.floor(hi))})] * dim)]
+    if kind != "Q" and cls != "ArbitraryOrderLagrange":
+        ipts = [p_ for p_ in ipts if sum(p_) <= 1 and min(p_) >= 0]  # simplex cells
+    for p_ in ipts:
+        rf = np.array(p_, dtype=float)
+        for mname in ("function", "gradient") + (("hessian",) if hasattr(el, "hessian") else ()):
+            try:
+                ref_ = np.asarray(getattr(el, mname)(rf), dtype=float)
+            except Exception:
+                continue
+            for clab, conv in (("list-of-int", lambda q: [int(v) for v in q]), ("tuple-of-int", lambda q: tuple(int(v) for v in q)), ("int64-array", lambda q: np.array(q, dtype=np.int64)),
+                               ("float32-array", lambda q: np.array(q, dtype=np.float32)), ("list-of-float", lambda q: [float(v) for v in q])):
+                ntrans += 1
+                try:
+                    got_ = np.asarray(getattr(el, mname)(conv(p_)), dtype=float)
+                except Exception as ex:  # noqa
+                    bad(f"point-type/{mname}/{clab}/point={list(p_)}/exception", "evaluation raised for a point given in another container / number type", repr(ex)[:120], "values")
+                    continue
+                if got_.shape != ref_.shape or np.abs(got_ - ref_).max() > (1e-6 if clab == "float32-array" else 1e-14) * max(1.0, np.abs(ref_).max()):
+                    bad(f"point-type/{mname}/{clab}/point={list(p_)}", f"{mname} at a point with integer coordinates given as {clab} vs the same point as float64 array", got_.ravel()[:6].tolist(), ref_.ravel()[:6].tolist())
     # (v) degree bound: interpolate the tabulated function onto a shifted lattice
     y = lo + (hi - lo) * (np.arange(n + 1) + 0.37) / (n + 1.3)
     L = bary_matrix(x, y)
